@@ -22,6 +22,12 @@ ACT = r"^radicle::cob::identity::Identity::action$"
 
 
 def run(ctx):
+    _run(ctx)
+    from . import c06
+    c06.apply_after_signature(ctx, "author")
+
+
+def _run(ctx):
     db = ctx.db
     ctx.explanation = (
         "Decides structurally: signature discipline (DOM/PASS of verify_signature=Ok before every recorded Accept verdict and "
